@@ -446,6 +446,7 @@ type info struct {
 	Runs  int `json:"runs"`
 	Opens int `json:"opens"`
 	Signs int `json:"signs,omitempty"`
+	Lossy int `json:"lossy,omitempty"` // hist.go: re-serialized copies of a freshly parsed object that do not open
 }
 
 func replayObject(c *rp.Ctx, kr *keyring, cs *joseCase, salt int, rng *rand.Rand) rp.Result {
